@@ -16,6 +16,7 @@ import (
 	"go/ast"
 	"go/token"
 	"go/types"
+	"os"
 	"sort"
 	"strings"
 )
@@ -1220,7 +1221,17 @@ func (a *analysis) ctxInits() []ctxInit {
 
 func coqStr(s string) string { return `"` + strings.ReplaceAll(s, `"`, `""`) + `"` }
 
+// sitesDump, when set (VH_C19_SITES=<file>), receives "file:line<TAB>function<TAB>callee" for
+// every call site listed in the facts: used by the audit to list the blocking call
+// sites that no harness shape reaches (crossed with a coverage profile).
+var sitesDump *[]string
+
 func factsC19(b *strings.Builder) error {
+	if f := os.Getenv("VH_C19_SITES"); f != "" {
+		var l []string
+		sitesDump = &l
+		defer func() { _ = os.WriteFile(f, []byte(strings.Join(l, "\n")+"\n"), 0o644) }()
+	}
 	a, err := analyse(c19Pkgs)
 	if err != nil {
 		return err
@@ -1260,6 +1271,10 @@ func factsC19(b *strings.Builder) error {
 			ord++
 			s.ctxKind = a.ctxKind(s)
 			s.errKind = a.errKindOf(s, nil)
+			if sitesDump != nil {
+				pos := a.fset.Position(s.call.Pos())
+				*sitesDump = append(*sitesDump, fmt.Sprintf("%s:%d\t%s\t%s", pos.Filename, pos.Line, k, s.callee))
+			}
 			line := fmt.Sprintf("  mk_site %d %d %d %s %s (* %s -> %s *)", id(k), id(s.callee), s.ord, s.ctxKind, s.errKind, k, s.callee)
 			if corePkgs[k[:strings.Index(k, ".")]] {
 				siteLines = append(siteLines, line)
